@@ -45,9 +45,74 @@ def err(e):
     return {'err': type(e).__name__, 'msg': str(e)[:160]}
 
 
+def stored(col, storage):
+    """the 1-d float64 column `col` in another storage type; returns (object handed to pydl, float64 copy of the same numbers)"""
+    col = np.asarray(col, dtype='d')
+    if storage == 'noncontig':
+        big = np.zeros(2 * col.size + 1, dtype='d')
+        big[1::2] = col
+        return big[1::2], col.copy()
+    if storage == 'list':
+        return [float(v) for v in col], col.copy()
+    if storage == 'quantity':
+        return col.copy() * u.deg, col.copy()
+    a = col.astype(storage)
+    return a, a.astype('d')
+
+
+def same(a, b):
+    return bool(np.array_equal(np.asarray(a), np.asarray(b)) and getattr(a, 'dtype', None) == getattr(b, 'dtype', None))
+
+
 def job(j):
     k = j['op']
     try:
+        if k == 'history':
+            # several calls in ONE process, in order; every answer is later compared with the answer of the same call alone
+            return {'results': [job(c) for c in j['calls']]}
+        if k == 'gcirc_storage':
+            pts = np.array(j['pts'], dtype='d').reshape(-1, 4)
+            un, st = j['units'], j['storage']
+            if st in ('pyint', 'npint32', 'npuint16', 'npfloat32'):
+                conv = {'pyint': int, 'npint32': np.int32, 'npuint16': np.uint16, 'npfloat32': np.float32}[st]
+                out, ref = [], []
+                with np.errstate(all='ignore'):
+                    for p in pts:
+                        a = [conv(v) for v in p]
+                        out.append(fl(gcirc(*a, units=un)))
+                        ref.append(fl(gcirc(*[float(v) for v in a], units=un)))
+                return {'d': out, 'ref': ref, 'input_unchanged': True, 'aliases_input': False, 'dtype': None}
+            cols, refs = zip(*[stored(pts[:, c], st) for c in range(4)])
+            keep = [np.array(c, copy=True) if not isinstance(c, list) else list(c) for c in cols]
+            with np.errstate(all='ignore'):
+                d = gcirc(*cols, units=un)
+                ref = gcirc(*refs, units=un)
+            unchanged = all((c == kp) if isinstance(c, list) else same(c, kp) for c, kp in zip(cols, keep))
+            alias = any(np.shares_memory(np.asarray(d), c) for c in cols if isinstance(c, np.ndarray))
+            return {'d': fls(getattr(d, 'value', d)), 'ref': fls(ref), 'input_unchanged': bool(unchanged), 'aliases_input': bool(alias),
+                    'dtype': str(getattr(d, 'dtype', type(d).__name__))}
+        if k == 'angles_storage':
+            pts = np.array(j['pts'], dtype='d').reshape(-1, 2)
+            lat, st = bool(j['latitude']), j['storage']
+            if st == 'noncontig':
+                big = np.zeros((pts.shape[0], 5), dtype='d')
+                big[:, 1::2] = pts
+                a = big[:, 1::2]
+            elif st == 'fortran':
+                a = np.asfortranarray(pts)
+            else:
+                a = pts.astype(st)
+            keep = a.copy()
+            ref64 = a.astype('d')
+            x = angles_to_x(a, latitude=lat)
+            xkeep = np.array(x, copy=True)
+            back = x_to_angles(x, latitude=lat)
+            xr = angles_to_x(ref64, latitude=lat)
+            br = x_to_angles(xr, latitude=lat)
+            return {'x': [fls(r) for r in xkeep], 'back': [fls(r) for r in back], 'x_ref': [fls(r) for r in xr],
+                    'back_ref': [fls(r) for r in br], 'input_unchanged': same(a, keep), 'x_unchanged': same(x, xkeep),
+                    'aliases_input': bool(np.shares_memory(x, a) or np.shares_memory(back, x)),
+                    'dtypes': [str(x.dtype), str(back.dtype)]}
         if k == 'gcirc':
             # pts: list of [ra1, dec1, ra2, dec2]; mode 'scalar' (one call per row) or 'array' (one call)
             pts = np.array(j['pts'], dtype='d').reshape(-1, 4)
@@ -105,6 +170,9 @@ def job(j):
             st = j['stripe']
             lon = np.array(j['lon'], dtype='d')
             lat = np.array(j['lat'], dtype='d')
+            if j.get('storage'):
+                lon, lat = stored(lon, j['storage'])[0], stored(lat, j['storage'])[0]
+                lon_keep, lat_keep = np.array(lon, copy=True), np.array(lat, copy=True)
             res = {}
             if k in ('r2m', 'r2m2r'):
                 c = ICRS(ra=lon * u.deg, dec=lat * u.deg)
@@ -125,6 +193,8 @@ def job(j):
                 if k == 'm2r2m':
                     b = c.transform_to(pc.SDSSMuNu(stripe=st))
                     res['lon2'], res['lat2'] = fls(b.mu.to(u.deg).value), fls(b.nu.to(u.deg).value)
+            if j.get('storage'):
+                res['input_unchanged'] = bool(same(lon, lon_keep) and same(lat, lat_keep))
             return res
         if k == 'stripe':
             conv = {'int': int, 'int64': np.int64, 'int16': np.int16, 'uint8': np.uint8, 'uint16': np.uint16,
